@@ -44,6 +44,14 @@ func main() {
 		tier := fs.String("tier", envOr("VERIF_TIER", "quick"), "quick or thorough")
 		_ = fs.Parse(os.Args[3:])
 		os.Exit(check(id, *tier))
+	case "render":
+		// debugging aid: scverif render <pkg rel> <ServiceGoName>  prints the router template instance
+		prog, err := an.Load(nil)
+		if err != nil {
+			fmt.Println(err)
+			os.Exit(2)
+		}
+		fmt.Print(props.RenderRouter(prog, os.Args[2], os.Args[3]))
 	case "mut":
 		prog, err := an.Load(nil)
 		if err != nil {
@@ -188,7 +196,30 @@ func runControls(p *props.Prop, ff *an.FindingsFile, base *an.Result) (fired, mi
 			continue
 		}
 		mut := strings.Replace(string(src), ctl.Old, ctl.New, 1)
-		c, err := runProp(p, "quick", map[string][]byte{file: []byte(mut)})
+		overlay := map[string][]byte{file: []byte(mut)}
+		okMore := true
+		for _, e := range ctl.More {
+			f2 := filepath.Join(an.RepoDir(), e.File)
+			cur, has := overlay[f2]
+			if !has {
+				cur, err = os.ReadFile(f2)
+				if err != nil {
+					okMore = false
+					break
+				}
+			}
+			if strings.Count(string(cur), e.Old) < 1 {
+				okMore = false
+				break
+			}
+			overlay[f2] = []byte(strings.Replace(string(cur), e.Old, e.New, 1))
+		}
+		if !okMore {
+			skipped++
+			log = append(log, fmt.Sprintf("%s: skipped (anchor text of an additional edit not found)", ctl.Name))
+			continue
+		}
+		c, err := runProp(p, "quick", overlay)
 		if err != nil {
 			skipped++
 			log = append(log, fmt.Sprintf("%s: skipped (mutant does not load: %v)", ctl.Name, err))
